@@ -597,7 +597,7 @@ func init() {
 		Gen: func(tier string, seed int64) []fw.Case {
 			l := fw.NewCaseList("C15", tier, seed)
 			rng := l.Rng()
-			for i := 0; i < l.N(300, 5000); i++ {
+			for i := 0; i < l.N(300, 20000); i++ {
 				st := "sql-mem"
 				switch rng.Intn(6) {
 				case 0:
@@ -608,8 +608,8 @@ func init() {
 				l.Add("program", c15Params{Store: st, Steps: 5 + rng.Intn(56)}, 0)
 			}
 			// concurrent clients on one file (linearizability per name + reflog chain)
-			for i := 0; i < l.N(8, 150); i++ {
-				l.Add("concurrent", c15ConcParams{Clients: 4 + rng.Intn(5), Ops: 10 + rng.Intn(20), Names: 2 + rng.Intn(2), Chain: rng.Intn(2) == 0}, 0)
+			for i := 0; i < l.N(8, 600); i++ {
+				l.Add("concurrent", c15ConcParams{Clients: 3 + rng.Intn(5), Ops: 8 + rng.Intn(14), Names: 2 + rng.Intn(2), Chain: rng.Intn(2) == 0}, 0)
 			}
 			return l.Cases
 		},
